@@ -87,3 +87,61 @@ Proof.
   rewrite E. split; [|split; [reflexivity|apply firstn_all]].
   intro H. simpl in H. destruct c'; [reflexivity|simpl in H; lia].
 Qed.
+
+(* lights: the class loaders give the light the file describes *)
+Lemma opt_float_read : forall numtab o v, opt_float numtab o = Ok v -> read_opt_float numtab o = Some v.
+Proof.
+  intros numtab [n|] v H; simpl in *; [|now injection H as <-].
+  unfold float_of_text in H. destruct (etext n) as [[|x [|y r]]|]; simpl in H; try discriminate.
+  destruct (cls numtab x); simpl in *; [now injection H as <-|discriminate].
+Qed.
+
+Lemma has_own_eown : forall t k, has_own t k = true -> eown k = Some t.
+Proof.
+  intros t k H. unfold has_own in H. destruct (eown k) as [u|]; [|discriminate]. apply N.eqb_eq in H. now subst.
+Qed.
+
+Theorem load_light_is_read : forall numtab e v, load_light_t numtab e = Ok v -> read_light numtab e = Some v.
+Proof.
+  intros numtab e v H. unfold load_light_t in H. unfold read_light.
+  destruct (efind a_technique_common e) as [tec|]; [|discriminate].
+  destruct (first_kid tec) as [ln|]; [|discriminate].
+  assert (K : exists k, (if has_own a_directional ln then Some a_directional else
+                         if has_own a_point ln then Some a_point else
+                         if has_own a_ambient ln then Some a_ambient else
+                         if has_own a_spot ln then Some a_spot else None) = Some k /\ eown ln = Some k /\
+                        existsb (N.eqb k) light_kinds = true).
+  { destruct (has_own a_directional ln) eqn:D; [exists a_directional; split; [reflexivity|split; [now apply has_own_eown|reflexivity]]|].
+    destruct (has_own a_point ln) eqn:P; [exists a_point; split; [reflexivity|split; [now apply has_own_eown|reflexivity]]|].
+    destruct (has_own a_ambient ln) eqn:A; [exists a_ambient; split; [reflexivity|split; [now apply has_own_eown|reflexivity]]|].
+    destruct (has_own a_spot ln) eqn:S; [exists a_spot; split; [reflexivity|split; [now apply has_own_eown|reflexivity]]|].
+    discriminate. }
+  destruct K as (k & K1 & K2 & K3). rewrite K1 in H. rewrite K2, K3. cbn [negb].
+  destruct (efind_path [a_technique_common; k] e) as [pnode|]; [|destruct (N.eqb k a_point || N.eqb k a_spot); discriminate].
+  destruct (efind a_color pnode) as [cn|]; [|discriminate].
+  destruct (etext cn) as [l|]; [|discriminate].
+  destruct (classes numtab l) as [color|]; [|discriminate]. cbn [obind of_option] in H.
+  unfold light_param_names.
+  destruct (N.eqb k a_point) eqn:EP.
+  - destruct (opt_float numtab (efind a_quadratic_attenuation pnode)) as [q|] eqn:Q; [|discriminate]. cbn [obind] in H.
+    destruct (opt_float numtab (efind a_constant_attenuation pnode)) as [c|] eqn:C; [|discriminate]. cbn [obind] in H.
+    destruct (opt_float numtab (efind a_linear_attenuation pnode)) as [li|] eqn:L; [|discriminate]. cbn [obind] in H.
+    destruct (opt_float numtab (efind a_zfar pnode)) as [z|] eqn:Z; [|discriminate]. cbn [obind] in H.
+    injection H as <-. cbn [map]. rewrite (opt_float_read _ _ _ Q), (opt_float_read _ _ _ C), (opt_float_read _ _ _ L), (opt_float_read _ _ _ Z).
+    reflexivity.
+  - destruct (N.eqb k a_spot) eqn:ES.
+    + destruct (opt_float numtab (efind a_constant_attenuation pnode)) as [c|] eqn:C; [|discriminate]. cbn [obind] in H.
+      destruct (opt_float numtab (efind a_linear_attenuation pnode)) as [li|] eqn:L; [|discriminate]. cbn [obind] in H.
+      destruct (opt_float numtab (efind a_quadratic_attenuation pnode)) as [q|] eqn:Q; [|discriminate]. cbn [obind] in H.
+      destruct (opt_float numtab (efind a_falloff_angle pnode)) as [a|] eqn:A; [|discriminate]. cbn [obind] in H.
+      destruct (opt_float numtab (efind a_falloff_exponent pnode)) as [x|] eqn:X; [|discriminate]. cbn [obind] in H.
+      injection H as <-. cbn [map]. rewrite (opt_float_read _ _ _ Q), (opt_float_read _ _ _ C), (opt_float_read _ _ _ L), (opt_float_read _ _ _ A), (opt_float_read _ _ _ X).
+      reflexivity.
+    + cbn [obind] in H. injection H as <-. reflexivity.
+Qed.
+
+Lemma load_light_refines : forall numtab e v, load_light numtab e = Ok v -> read_light_loader numtab e = Ok v.
+Proof.
+  intros numtab e v H. unfold load_light in H. unfold read_light_loader.
+  destruct (load_light_t numtab e) as [l|] eqn:L; [|discriminate]. now rewrite (load_light_is_read _ _ _ L).
+Qed.
